@@ -66,8 +66,8 @@ func c17DontExpectEOF(p *load.Program, r *oblig.Report) {
 					_, ci := an.IfCond(pred)
 					if ci != nil && ci.X == e && an.IsNilConst(ci.Y) {
 						nilSucc := pred.Succs[1]
-						if ci.Op == token.EQL {
-							nilSucc = pred.Succs[0]
+						if e := ci.Edge(token.EQL); e >= 0 {
+							nilSucc = pred.Succs[e]
 						}
 						if nilSucc == phi.Block() {
 							continue
@@ -186,7 +186,7 @@ func c17Sticky(p *load.Program, r *oblig.Report) {
 		// dominated by `d.err == nil` true edge
 		for d, child := st.Block().Idom(), st.Block(); d != nil; d, child = d.Idom(), d {
 			_, ci := an.IfCond(d)
-			if ci != nil && ci.Op == token.EQL && an.IsNilConst(ci.Y) && strings.HasSuffix(argDesc(ci.X), ".err") && (d.Succs[0] == child || d.Succs[0].Dominates(child)) {
+			if e := ci.Edge(token.EQL); e >= 0 && an.IsNilConst(ci.Y) && strings.HasSuffix(argDesc(ci.X), ".err") && (d.Succs[e] == child || d.Succs[e].Dominates(child)) {
 				okGuard = true
 			}
 		}
@@ -201,7 +201,13 @@ func c17Sticky(p *load.Program, r *oblig.Report) {
 	rd := p.Func("protocol", "(*decoder).Read")
 	if rd != nil {
 		_, ci := an.IfCond(rd.Blocks[0])
-		ok := ci != nil && ci.Op == token.NEQ && an.IsNilConst(ci.Y) && strings.HasSuffix(argDesc(ci.X), ".err")
+		ok := ci.Edge(token.NEQ) >= 0 && an.IsNilConst(ci.Y) && strings.HasSuffix(argDesc(ci.X), ".err")
+		if ok {
+			// the d.err != nil edge returns at once
+			e := rd.Blocks[0].Succs[ci.Edge(token.NEQ)]
+			_, isRet := e.Instrs[len(e.Instrs)-1].(*ssa.Return)
+			ok = isRet
+		}
 		r.Check(ok, rule, "protocol.(*decoder).Read fails immediately once an error was recorded", p.Pos(rd.Pos()), "if d.err != nil { return 0, d.err } first", "not the first test")
 	}
 	// fixed-width read helpers: value returned only when readFull succeeded
@@ -301,8 +307,14 @@ func c17RoundTrip(p *load.Program, r *oblig.Report) {
 			if call, isC := ins.(*ssa.Call); isC && call.Call.StaticCallee() != nil && an.RefFuncName(call.Call.StaticCallee()) == "reject" {
 				for _, pred := range call.Block().Preds {
 					_, ci := an.IfCond(pred)
-					if ci != nil && ci.Op == token.NEQ && an.IsNilConst(ci.Y) && pred.Succs[0] == call.Block() {
-						ok = true
+					if ci != nil && (ci.Op == token.NEQ || ci.Op == token.EQL) && an.IsNilConst(ci.Y) {
+						nonNil := 0
+						if (ci.Op == token.EQL) != ci.Neg {
+							nonNil = 1
+						}
+						if pred.Succs[nonNil] == call.Block() {
+							ok = true
+						}
 					}
 				}
 			}
@@ -361,10 +373,11 @@ func c17SizeThreading(p *load.Program, r *oblig.Report) {
 			okGuard := false
 			for d, child := ret.Block().Idom(), ret.Block(); d != nil; d, child = d.Idom(), d {
 				_, ci := an.IfCond(d)
-				if ci == nil || ci.Op != token.EQL {
+				e := ci.Edge(token.EQL)
+				if e < 0 {
 					continue
 				}
-				if c2, ok := an.ConstInt(ci.Y); ok && c2 == k && (d.Succs[0] == child || d.Succs[0].Dominates(child)) {
+				if c2, ok := an.ConstInt(ci.Y); ok && c2 == k && (d.Succs[e] == child || d.Succs[e].Dominates(child)) {
 					for _, o := range an.Origins(ci.X, an.FlowOpts{}) {
 						if o.Val == ssa.Value(szParam) || o.Kind == "binop" || o.Kind == "call" {
 							okGuard = true
